@@ -19,6 +19,8 @@ def check_loads(ctx, node, prog, bag):
             ctx.count(f"outcome_{out.kind}")
             if out.kind in ("exc", "impure"):
                 key = escape_key(out.exc)
+                if key.startswith("TypeError@iter_loader") and "unhashable" in repr(out.exc):
+                    key = "TypeError-unhashable-element@set-building-iterable-loader"   # one mechanism, four generated closures
                 ctx.violation(key, f"{node.src} <- {label} = {d!r:.120} [{mode_name(dt, sc)}]: escaped {type(out.exc).__name__}: {str(out.exc)[:160]}",
                               {"type": node.src, "datum": repr(d)[:400], "mode": mode_name(dt, sc), "exception": repr(out.exc)[:600]})
 
